@@ -1,9 +1,10 @@
 #!/bin/bash
-# seed_batch.sh Cxx : evaluate /tmp/wt-Cxx/SEED/{A,B} and keep valid ones
+# seed_batch.sh Cxx [round] : evaluate /tmp/wt<round>-Cxx/SEED/{A,B} and keep valid ones as /verif/seeded/Cxx-<round><A|B>
 id=$1
-for s in A B; do
-  if [ -f /tmp/wt-$id/SEED/$s/patch.diff ]; then
-    /venv/bin/python /verif/tools/seed_eval.py /tmp/wt-$id/SEED/$s $id $id-$s --keep 2>&1 | /venv/bin/python -c "
+rnd=${2:-}
+for s in A B C; do
+  if [ -f /tmp/wt$rnd-$id/SEED/$s/patch.diff ]; then
+    /venv/bin/python /verif/tools/seed_eval.py /tmp/wt$rnd-$id/SEED/$s $id $id-$rnd$s --keep 2>&1 | /venv/bin/python -c "
 import sys,json,re
 txt=sys.stdin.read()
 m=re.findall(r'\{\n \"seed\".*\n\}', txt, re.S)
